@@ -103,6 +103,21 @@ def install_gates():
     for name in ("replace", "rename"):
         wrap1(os, name, argidx=1)
     wrap1(shutil, "copyfile", argidx=1)
+    # the existence query of a transfer is a step of its own (Query in the spec): a gate before it and one after it,
+    # so that another writer can run between "decided what to send" and "looks up where to copy it from"
+    import dvc_data.hashfile.status as _st
+
+    real_cmp = _st.compare_status
+
+    def gated_compare_status(*a, **kw):
+        if SCHED is not None:
+            SCHED.gate("status")
+        r = real_cmp(*a, **kw)
+        if SCHED is not None:
+            SCHED.gate("send")
+        return r
+
+    _st.compare_status = gated_compare_status
     real_submit = cf.ThreadPoolExecutor.submit
 
     def submit(self, fn, *a, **kw):
@@ -225,6 +240,15 @@ def main():
                 if getattr(exc, "errno", None):
                     errnos.append(int(exc.errno))
             finally:
+                # done: this writer moves on and its workspace gets the next round of data under the same names (nobody
+                # else has any business reading it)
+                try:
+                    d_ = os.path.join(base, f"ws{w}", "data")
+                    for f_ in os.listdir(d_):
+                        with open(os.path.join(d_, f_), "wb") as fh_:
+                            fh_.write(b"next round of writer %d: %s\n" % (w, f_.encode()))
+                except OSError:
+                    pass
                 SCHED.finish(w)
 
         threads = [threading.Thread(target=writer, args=(w,)) for w in range(1, nw + 1)]
